@@ -1443,15 +1443,21 @@ Stylesheet::processExtensionNamespace(
             StylesheetConstructionContext&  theConstructionContext,
             const XalanDOMString&           uri)
 {
-    XalanMemMgrAutoPtr<ExtensionNSHandler>  theGuard(
-                                                theConstructionContext.getMemoryManager(),
-                                                ExtensionNSHandler::create(
-                                                    uri,
-                                                    theConstructionContext.getMemoryManager()));
+    // The same URI can be named more than once (several prefixes bound to
+    // one URI, or a prefix listed twice).  The map keeps the first handler,
+    // so a second one would never be owned by anything.
+    if (m_extensionNamespaces.find(uri) == m_extensionNamespaces.end())
+    {
+        XalanMemMgrAutoPtr<ExtensionNSHandler>  theGuard(
+                                                    theConstructionContext.getMemoryManager(),
+                                                    ExtensionNSHandler::create(
+                                                        uri,
+                                                        theConstructionContext.getMemoryManager()));
 
-    m_extensionNamespaces.insert(uri, theGuard.get());
+        m_extensionNamespaces.insert(uri, theGuard.get());
 
-    theGuard.release();
+        theGuard.release();
+    }
 
     m_namespacesHandler.addExtensionNamespaceURI(theConstructionContext, uri);
 }
